@@ -385,6 +385,10 @@ func genPauseMatrix(g *Gen, n int) {
 				g.tx("ReplaceMessage", from, fmt.Sprintf("orig=%x att=%x new_body=%x new_caller=%x", om, f.attestWith(om, f.honest()), g.r.Bytes(9), pad32(g.r.Bytes(20))), "")
 				od := encMsg(0, 4, 1, g.r.Next(), types.PaddedModuleAddress, g.r.Bytes(32), make([]byte, 32), encBurn(0, g.r.Bytes(32), g.r.Bytes(32), big.NewInt(77), pad32(mustAcc(from))))
 				g.tx("ReplaceDepositForBurn", from, fmt.Sprintf("orig=%x att=%x new_caller=%x new_recipient=%x", od, f.attestWith(od, f.honest()), pad32(g.r.Bytes(20)), g.r.Bytes(32)), "")
+				if len(od) >= 116+68 {
+					// the same replacement keeping the mint recipient the original names: only the caller changes
+					g.tx("ReplaceDepositForBurn", from, fmt.Sprintf("orig=%x att=%x new_caller=%x new_recipient=%x", od, f.attestWith(od, f.honest()), pad32(g.r.Bytes(20)), od[116+36:116+68]), "")
+				}
 				// receive: module-addressed and not
 				m1 := encMsg(0, 0, 4, g.r.Next(), f.messengers[0], types.PaddedModuleAddress, make([]byte, 32), f.burnBody(0))
 				g.tx("ReceiveMessage", from, fmt.Sprintf("message=%x attestation=%x", m1, f.attestWith(m1, f.honest())), "")
@@ -423,7 +427,7 @@ func genPauseMatrix(g *Gen, n int) {
 
 // ---------- C14: dependency-fault plans and late failures ----------
 func genFaults(g *Gen, n int) {
-	plans := []string{"", "f", "s", "df", "ff", "sf", "fs", "ds", "ss", "dd"}
+	plans := []string{"", "f", "s", "df", "ff", "sf", "fs", "ds", "ss", "dd", "p", "dp", "sp"}
 	lates := []string{"none", "sr-paused", "body-size", "caller-short", "caller-long", "messenger-zero", "recipient-short", "recipient-long"}
 	for sc := 0; sc < n; sc++ {
 		g.line("BEGIN id=%d", sc)
@@ -478,10 +482,10 @@ func genFaults(g *Gen, n int) {
 			}
 		}
 		// receives under mint faults, with a retry that must succeed once
-		for pi, plan := range []string{"f", "s", "", "f", "f", "f"} {
+		for pi, plan := range []string{"f", "s", "", "f", "f", "f", "p", "p"} {
 			src, nonce := uint32(g.r.Intn(3)), g.r.Next()
 			body := f.burnBody(src)
-			if pi >= 4 {
+			if pi == 4 || pi == 5 {
 				// boundary amounts under a failing mint: zero and the maximum
 				amt := big.NewInt(0)
 				if pi == 5 {
